@@ -3,6 +3,10 @@
 //! links per node; every mutation is a list splice.
 
 use indextree::NodeId;
+use smallvec::SmallVec;
+
+/// children lists: inline up to 4 entries, so that cloning a model does not allocate per node
+pub type Kids = SmallVec<[usize; 4]>;
 
 #[derive(Clone, Copy, Debug, PartialEq, Eq)]
 pub enum FreeState {
@@ -25,7 +29,7 @@ pub struct MNode {
     pub id: NodeId,
     pub live: bool,
     pub parent: Option<usize>,
-    pub children: Vec<usize>,
+    pub children: Kids,
     pub serial: u64,
     pub val: u32,
     pub recycles: u32,
@@ -41,6 +45,9 @@ pub struct Model {
     /// top-level sibling chains; every parentless live node is in exactly one; none is empty
     pub chains: Vec<Vec<usize>>,
     pub next_serial: u64,
+    /// number of slots in state Free / MaybeRetired (kept in step by `set_free`)
+    pub nfree: usize,
+    pub nmaybe: usize,
 }
 
 pub type Links = [Option<NodeId>; 5]; // parent, prev, next, first, last
@@ -51,9 +58,26 @@ impl Model {
         Self::default()
     }
 
+    /// the only writer of `MNode::free`
+    pub fn set_free(&mut self, slot: usize, st: FreeState) {
+        match self.n[slot].free {
+            FreeState::Free => self.nfree -= 1,
+            FreeState::MaybeRetired => self.nmaybe -= 1,
+            _ => {}
+        }
+        match st {
+            FreeState::Free => self.nfree += 1,
+            FreeState::MaybeRetired => self.nmaybe += 1,
+            _ => {}
+        }
+        self.n[slot].free = st;
+    }
+
     pub fn clear(&mut self) {
         self.n.clear();
         self.chains.clear();
+        self.nfree = 0;
+        self.nmaybe = 0;
         // serials keep growing: payload identities are never reused
     }
 
@@ -79,10 +103,10 @@ impl Model {
     }
 
     /// the sibling list x is in (children of its parent, or its top-level chain)
-    pub fn siblings(&self, x: usize) -> &Vec<usize> {
+    pub fn siblings(&self, x: usize) -> &[usize] {
         match self.n[x].parent {
-            Some(p) => &self.n[p].children,
-            None => &self.chains[self.chain_index(x).expect("parentless live node must be in a chain")],
+            Some(p) => &self.n[p].children[..],
+            None => &self.chains[self.chain_index(x).expect("parentless live node must be in a chain")][..],
         }
     }
 
@@ -152,7 +176,8 @@ impl Model {
         match parent {
             Some(p) => {
                 let i = self.n[p].children.iter().position(|&c| c == x).unwrap();
-                self.n[p].children.splice(i..i + 1, kids);
+                self.n[p].children.remove(i);
+                self.n[p].children.insert_many(i, kids);
             }
             None => {
                 let ci = self.chain_index(x).unwrap();
@@ -186,7 +211,8 @@ impl Model {
         m.children.clear();
         m.removed_with_relatives = had_rel;
         m.removed_as_descendant = as_desc;
-        m.free = if m.recycles >= RETIRE_MIN { FreeState::MaybeRetired } else { FreeState::Free };
+        let st = if m.recycles >= RETIRE_MIN { FreeState::MaybeRetired } else { FreeState::Free };
+        self.set_free(x, st);
     }
 
     /// A node was created in `slot` with id `id`.
@@ -198,7 +224,7 @@ impl Model {
                 id,
                 live: true,
                 parent: None,
-                children: Vec::new(),
+                children: Kids::new(),
                 serial,
                 val,
                 recycles: 0,
@@ -215,7 +241,7 @@ impl Model {
             m.serial = serial;
             m.val = val;
             m.recycles += 1;
-            m.free = FreeState::NotFree;
+            self.set_free(slot, FreeState::NotFree);
         }
         self.chains.push(vec![slot]);
         serial
@@ -270,7 +296,7 @@ impl Model {
     pub fn expected_links(&self) -> Vec<Links> {
         let mut out: Vec<Links> = vec![[None; 5]; self.n.len()];
         let id = |s: usize| Some(self.n[s].id);
-        let do_list = |list: &Vec<usize>, out: &mut Vec<Links>| {
+        let do_list = |list: &[usize], out: &mut Vec<Links>| {
             for (i, &c) in list.iter().enumerate() {
                 if i > 0 {
                     out[c][1] = id(list[i - 1]);
@@ -295,15 +321,36 @@ impl Model {
         out
     }
 
-    /// Canonical shape string of the whole forest (ids abstracted away) — used for distinctness
-    /// counting: chains sorted, each tree as nested parentheses.
-    pub fn shape(&self) -> String {
-        fn rec(m: &Model, x: usize, out: &mut String) {
-            out.push('(');
-            for &c in &m.n[x].children {
-                rec(m, c, out);
+    /// nested-parentheses rendering of the subtree of `x` (iterative: trees may be 70 000 deep)
+    fn paren(&self, x: usize, marks: &[usize], out: &mut String) {
+        // (node, next child index)
+        let mut stack: Vec<(usize, usize)> = vec![(x, 0)];
+        if let Some(k) = marks.iter().position(|&y| y == x) {
+            out.push((b'a' + k as u8) as char);
+        }
+        out.push('(');
+        while let Some((n, i)) = stack.pop() {
+            if i < self.n[n].children.len() {
+                stack.push((n, i + 1));
+                let c = self.n[n].children[i];
+                if let Some(k) = marks.iter().position(|&y| y == c) {
+                    out.push((b'a' + k as u8) as char);
+                }
+                out.push('(');
+                stack.push((c, 0));
+            } else {
+                out.push(')');
             }
-            out.push(')');
+        }
+    }
+
+    /// Canonical shape string of the whole forest (ids abstracted away) — used for distinctness
+    /// counting: chains sorted, each tree as nested parentheses.  Large forests are summarised.
+    pub fn shape(&self) -> String {
+        let rem = self.n.iter().filter(|m| !m.live).count();
+        if self.n.len() > 300 {
+            let maxw = self.n.iter().map(|m| m.children.len()).max().unwrap_or(0);
+            return format!("big:{}n/{}chains/w{}|r{}", self.n.len(), self.chains.len(), maxw, rem);
         }
         let mut cs: Vec<String> = self
             .chains
@@ -311,33 +358,33 @@ impl Model {
             .map(|ch| {
                 let mut s = String::new();
                 for &x in ch {
-                    rec(self, x, &mut s);
+                    self.paren(x, &[], &mut s);
                 }
                 s
             })
             .collect();
         cs.sort();
-        let rem = self.n.iter().filter(|m| !m.live).count();
         format!("{}|r{}", cs.join("/"), rem)
     }
 
     /// Shape of the tree (whole chain) containing x with x marked — for distinctness of (state, arg).
     pub fn shape_marked(&self, marks: &[usize]) -> String {
-        fn rec(m: &Model, x: usize, marks: &[usize], out: &mut String) {
-            if let Some(k) = marks.iter().position(|&y| y == x) {
-                out.push((b'a' + k as u8) as char);
+        if self.n.len() > 300 {
+            // large forest: local context of the marked nodes only
+            let mut s = format!("big:{}", self.n.len() / 1000);
+            for &m in marks {
+                if m < self.n.len() && self.n[m].live {
+                    let sib = self.siblings(m).len();
+                    s.push_str(&format!("|d{}k{}s{}", self.depth(m).min(9), self.n[m].children.len().min(9), sib.min(9)));
+                }
             }
-            out.push('(');
-            for &c in &m.n[x].children {
-                rec(m, c, marks, out);
-            }
-            out.push(')');
+            return s;
         }
         let mut cs: Vec<String> = Vec::new();
         for ch in &self.chains {
             let mut s = String::new();
             for &x in ch {
-                rec(self, x, marks, &mut s);
+                self.paren(x, marks, &mut s);
             }
             if s.bytes().any(|b| b.is_ascii_lowercase()) {
                 cs.push(s);
